@@ -97,6 +97,11 @@ struct JSONUtils {
                     stream.Write((content + offset2), (offset - offset2));
 
                     ++offset;
+
+                    if (offset >= length) {
+                        return 0;
+                    }
+
                     offset2 = offset;
                     ++offset2;
                     const Char_T ch = content[offset];
